@@ -349,27 +349,6 @@ def rule_cli_lines(ctx, R):
         site = _lines_enumerate(line, "1")
         ctx.check(site is not None, "CLI-LINES", b, "line-from-enumerated-lines", loc,
                   "the searched line must be the item of `reader.lines().enumerate()` (no filtering/skipping between lines() and enumerate()); found %s" % show(line)[:200])
-        ln = s["args"][pn["line_no"]]
-        okn = True
-        seen_some = seen_none = False
-        for x in members(ln):
-            if x[0] == "agg" and x[2] == "None":
-                seen_none = True
-            elif x[0] == "agg" and x[2] == "Some":
-                seen_some = True
-                idx = dict(x[3])["0"]
-                okn = okn and _lines_enumerate(idx, "0") == site and site is not None
-            else:
-                okn = False
-        ctx.check(okn and seen_some and seen_none, "CLI-LINES", b, "line-number-is-enumerate-index", loc,
-                  "the line number must be Some(enumerate index of that same line) or None; found %s" % show(ln)[:200])
-        # Some exactly under args.line_number
-        sw = switches_on(S.root, lambda d: d[0] == "field" and d[3] == "line_number")
-        somes = [bi for bi, si, st in b.stmts() if st["k"] == "assign" and st["rv"]["k"] == "aggregate" and st["rv"].get("variant") == "Some"
-                 and _lines_enumerate(pnorm(S.root.T.rvalue(st["rv"]))[3][0][1], "0") == site and site is not None]
-        okf = bool(somes) and all(any(b.edge_guards((sbi, bool_arms(stj)[0]), bi) for sbi, stj, d in sw) for bi in somes)
-        ctx.check(okf, "CLI-FLAGS", b, "line-number-iff-flag", loc, "line numbers are passed exactly when -n/--line-number is set")
-        ctx.check(m(F(ANY, "color"), s["args"][pn["color"]]), "CLI-FLAGS", b, "color-from-args", loc, "the colour mode passed on is args.color")
         fnm = s["args"][pn["filename"]]
         if fnm[0] == "agg" and fnm[2] == "None":
             ctx.ok("CLI-FLAGS", b, "stdin-no-filename", loc, "stdin lines carry no file name")
@@ -394,6 +373,34 @@ def rule_cli_lines(ctx, R):
                         okc = bool(somes_) and bool(nones_) and all(x not in cb.reach(tt_) for x in somes_) and all(x not in cb.reach(ff_) for x in nones_)
             ctx.check(okc, "CLI-FLAGS", b, "filename-unless-no-filename", loc,
                       "file lines carry the file's own name unless -h/--no-filename is set; found %s" % show(fnm)[:200])
+        ln = s["args"][pn["line_no"]]
+        if ln[0] == "call" and core.callee_base(ln[1]) == "core::bool::then_some" and len(ln[2]) == 2:
+            okt = ln[2][0][0] == "field" and ln[2][0][3] == "line_number" and _lines_enumerate(ln[2][1], "0") == site and site is not None
+            ctx.check(okt, "CLI-LINES", b, "line-number-is-enumerate-index", loc,
+                      "the line number must be args.line_number.then_some(enumerate index of that same line); found %s" % show(ln)[:200])
+            ctx.check(okt, "CLI-FLAGS", b, "line-number-iff-flag", loc, "line numbers are passed exactly when -n/--line-number is set")
+            ctx.check(m(F(ANY, "color"), s["args"][pn["color"]]), "CLI-FLAGS", b, "color-from-args", loc, "the colour mode passed on is args.color")
+            continue
+        okn = True
+        seen_some = seen_none = False
+        for x in members(ln):
+            if x[0] == "agg" and x[2] == "None":
+                seen_none = True
+            elif x[0] == "agg" and x[2] == "Some":
+                seen_some = True
+                idx = dict(x[3])["0"]
+                okn = okn and _lines_enumerate(idx, "0") == site and site is not None
+            else:
+                okn = False
+        ctx.check(okn and seen_some and seen_none, "CLI-LINES", b, "line-number-is-enumerate-index", loc,
+                  "the line number must be Some(enumerate index of that same line) or None; found %s" % show(ln)[:200])
+        # Some exactly under args.line_number
+        sw = switches_on(S.root, lambda d: d[0] == "field" and d[3] == "line_number")
+        somes = [bi for bi, si, st in b.stmts() if st["k"] == "assign" and st["rv"]["k"] == "aggregate" and st["rv"].get("variant") == "Some"
+                 and _lines_enumerate(pnorm(S.root.T.rvalue(st["rv"]))[3][0][1], "0") == site and site is not None]
+        okf = bool(somes) and all(any(b.edge_guards((sbi, bool_arms(stj)[0]), bi) for sbi, stj, d in sw) for bi in somes)
+        ctx.check(okf, "CLI-FLAGS", b, "line-number-iff-flag", loc, "line numbers are passed exactly when -n/--line-number is set")
+        ctx.check(m(F(ANY, "color"), s["args"][pn["color"]]), "CLI-FLAGS", b, "color-from-args", loc, "the colour mode passed on is args.color")
     ctx.check(len(calls) == 2, "CLI-LINES", b, "two-line-loops", b.span, "one per-line loop for stdin and one for files expected; found %d" % len(calls))
     # ---- pattern collection guards: -f lines and -p pieces are kept iff non-empty, unmodified
     pushes = [s for s in S.keyed(lambda k: k == "alloc::vec::Vec::push") if s["args"][0][0] == "var"]
